@@ -135,6 +135,10 @@ Record ids := Ids {
   last_ir_req : Z;                  (* .request of the InternalRedirect raised last *)
   ir_req : Z;                       (* ir.request after BindIr *)
   closed : list Z;                  (* request ids with closed = True *)
+  served : list Z;                  (* ghost: every request id that was ever loaded into the serving slot *)
+  lost_req : bool;                  (* ghost: a request left the serving slot (cleared / replaced) while not closed *)
+  rsk : bool;                       (* ghost: the receiver of the running method is KNOWN to be the serving request
+                                       (set when Request.run / Request.close is called on cherrypy.serving.request) *)
 }.
 
 Record state := St {
@@ -150,7 +154,7 @@ Definition init_fin : fin := Fin 0 false false false false false None 0 false 0 
 (** Request id 0 is the class-default request object that occupies the serving slot while no request is
     being served; it is modelled in its steady state: already closed (its first close() in a process runs
     the empty class-level hook map, after which [closed] stays set for the life of the process). *)
-Definition init_ids : ids := Ids 1 0 0 0 0 0 [0].
+Definition init_ids : ids := Ids 1 0 0 0 0 0 [0] [] false false.
 Definition init_state : state := St 0 [] [] [] init_ids init_fin.
 
 Definition memZ (x : Z) (l : list Z) : bool := existsb (Z.eqb x) l.
@@ -168,10 +172,10 @@ Fixpoint occ (a : action) (j : list (Z * action)) : nat :=
 Definition upd_tick (st : state) : state :=
   St (S (tick st)) (journal st) (raised_log st) (sr_calls st) (sid st) (sfin st).
 
-Definition ids_with_self (r : Z) (i : ids) : ids :=
-  Ids (next_req i) (pending_req i) (serving i) r (last_ir_req i) (ir_req i) (closed i).
-Definition with_self (r : Z) (st : state) : state :=
-  St (tick st) (journal st) (raised_log st) (sr_calls st) (ids_with_self r (sid st)) (sfin st).
+Definition ids_with_self (r : Z) (k : bool) (i : ids) : ids :=
+  Ids (next_req i) (pending_req i) (serving i) r (last_ir_req i) (ir_req i) (closed i) (served i) (lost_req i) k.
+Definition with_self (r : Z) (k : bool) (st : state) : state :=
+  St (tick st) (journal st) (raised_log st) (sr_calls st) (ids_with_self r k (sid st)) (sfin st).
 
 Definition fin_with_cur (e : option exn) (f : fin) : fin :=
   Fin (resp_status f) (resp_taint f) (v_body_taint f) (v_r_taint f) (v_tb_taint f) (v_b_taint f) e
@@ -201,20 +205,27 @@ Definition fin_raise (a : action) (e : exn) (f : fin) : fin :=
       (redir_in_error f) (iterating f) (init_trapped f).
 Definition ids_raise (e : exn) (i : ids) : ids :=
   Ids (next_req i) (pending_req i) (serving i) (self_req i)
-      (match e with XInternalRedirect => serving i | _ => last_ir_req i end) (ir_req i) (closed i).
+      (match e with XInternalRedirect => serving i | _ => last_ir_req i end) (ir_req i) (closed i) (served i) (lost_req i) (rsk i).
 Definition log_raise (a : action) (e : exn) (st : state) : state :=
   St (tick st) (journal st) ((self_req (sid st), a, e) :: raised_log st) (sr_calls st)
      (ids_raise e (sid st)) (fin_raise a e (sfin st)).
+
+(** the serving slot holds a request object that has not been closed *)
+Definition is_open (i : ids) : bool := negb (serving i =? 0) && negb (memZ (serving i) (closed i)).
 
 (** effect of a completed action on the identities *)
 Definition ids_effect (a : action) (i : ids) : ids :=
   match a with
   | NewRequest => Ids (next_req i + 1) (next_req i) (serving i) (self_req i) (last_ir_req i) (ir_req i) (closed i)
+                      (served i) (lost_req i) (rsk i)
   | LoadServing => Ids (next_req i) (pending_req i) (pending_req i) (self_req i) (last_ir_req i) (ir_req i) (closed i)
+                       (pending_req i :: served i) (lost_req i || is_open i) false
   | ClearServing => Ids (next_req i) (pending_req i) 0 (self_req i) (last_ir_req i) (ir_req i) (closed i)
+                        (served i) (lost_req i || is_open i) false
   | SetClosed => Ids (next_req i) (pending_req i) (serving i) (self_req i) (last_ir_req i) (ir_req i)
-                     (self_req i :: closed i)
+                     (self_req i :: closed i) (served i) (lost_req i) (rsk i)
   | BindIr => Ids (next_req i) (pending_req i) (serving i) (self_req i) (last_ir_req i) (last_ir_req i) (closed i)
+                  (served i) (lost_req i) (rsk i)
   | _ => i
   end.
 
@@ -302,6 +313,14 @@ Fixpoint eval_cond (E : env) (st : state) (c : cond) : bool :=
   | COther => e_cond E (tick st) FOther
   end.
 
+(** is the receiver of the call known to be the serving request?  ([old]: what was known of the caller's) *)
+Definition recv_known (f : fname) (old : bool) : bool :=
+  match f with
+  | F_request_run | F_request_close => true
+  | F_ir_request_close => false
+  | _ => old
+  end.
+
 (** which request a method call runs on *)
 Definition receiver (f : fname) (st : state) : Z :=
   match f with
@@ -386,8 +405,8 @@ Section Exec.
         else (Normal, upd_tick st)
       | Call g =>
         let saved := self_req (sid st) in
-        let '(o, st1) := exec f (pparam g) (prog g) (with_self (receiver g st) st) in
-        (match o with Returned => Normal | _ => o end, with_self saved st1)
+        let '(o, st1) := exec f (pparam g) (prog g) (with_self (receiver g st) (recv_known g (rsk (sid st))) st) in
+        (match o with Returned => Normal | _ => o end, with_self saved false st1)
       | CallParam => exec f Skip param st
       end
     end.
